@@ -308,7 +308,10 @@ MEM_STATIC size_t ZSTD_initLegacyStream(void** legacyContext, U32 prevVersion, U
         dict = &x;
     }
     DEBUGLOG(5, "ZSTD_initLegacyStream for v0.%u", newVersion);
-    if (prevVersion != newVersion) ZSTD_freeLegacyStreamContext(*legacyContext, prevVersion);
+    if (prevVersion != newVersion) {
+        ZSTD_freeLegacyStreamContext(*legacyContext, prevVersion);
+        *legacyContext = NULL;   /* nothing dangling when the creation below fails */
+    }
     switch(newVersion)
     {
         default :
@@ -320,7 +323,7 @@ MEM_STATIC size_t ZSTD_initLegacyStream(void** legacyContext, U32 prevVersion, U
 #if (ZSTD_LEGACY_SUPPORT <= 4)
         case 4 :
         {
-            ZBUFFv04_DCtx* dctx = (prevVersion != newVersion) ? ZBUFFv04_createDCtx() : (ZBUFFv04_DCtx*)*legacyContext;
+            ZBUFFv04_DCtx* dctx = (*legacyContext == NULL) ? ZBUFFv04_createDCtx() : (ZBUFFv04_DCtx*)*legacyContext;
             if (dctx==NULL) return ERROR(memory_allocation);
             ZBUFFv04_decompressInit(dctx);
             ZBUFFv04_decompressWithDictionary(dctx, dict, dictSize);
@@ -331,7 +334,7 @@ MEM_STATIC size_t ZSTD_initLegacyStream(void** legacyContext, U32 prevVersion, U
 #if (ZSTD_LEGACY_SUPPORT <= 5)
         case 5 :
         {
-            ZBUFFv05_DCtx* dctx = (prevVersion != newVersion) ? ZBUFFv05_createDCtx() : (ZBUFFv05_DCtx*)*legacyContext;
+            ZBUFFv05_DCtx* dctx = (*legacyContext == NULL) ? ZBUFFv05_createDCtx() : (ZBUFFv05_DCtx*)*legacyContext;
             if (dctx==NULL) return ERROR(memory_allocation);
             ZBUFFv05_decompressInitDictionary(dctx, dict, dictSize);
             *legacyContext = dctx;
@@ -341,7 +344,7 @@ MEM_STATIC size_t ZSTD_initLegacyStream(void** legacyContext, U32 prevVersion, U
 #if (ZSTD_LEGACY_SUPPORT <= 6)
         case 6 :
         {
-            ZBUFFv06_DCtx* dctx = (prevVersion != newVersion) ? ZBUFFv06_createDCtx() : (ZBUFFv06_DCtx*)*legacyContext;
+            ZBUFFv06_DCtx* dctx = (*legacyContext == NULL) ? ZBUFFv06_createDCtx() : (ZBUFFv06_DCtx*)*legacyContext;
             if (dctx==NULL) return ERROR(memory_allocation);
             ZBUFFv06_decompressInitDictionary(dctx, dict, dictSize);
             *legacyContext = dctx;
@@ -351,7 +354,7 @@ MEM_STATIC size_t ZSTD_initLegacyStream(void** legacyContext, U32 prevVersion, U
 #if (ZSTD_LEGACY_SUPPORT <= 7)
         case 7 :
         {
-            ZBUFFv07_DCtx* dctx = (prevVersion != newVersion) ? ZBUFFv07_createDCtx() : (ZBUFFv07_DCtx*)*legacyContext;
+            ZBUFFv07_DCtx* dctx = (*legacyContext == NULL) ? ZBUFFv07_createDCtx() : (ZBUFFv07_DCtx*)*legacyContext;
             if (dctx==NULL) return ERROR(memory_allocation);
             ZBUFFv07_decompressInitDictionary(dctx, dict, dictSize);
             *legacyContext = dctx;
